@@ -483,6 +483,15 @@ def _recurses_into_sub_graphs(ctx: Ctx, sink: FuncInfo) -> bool:
                 isinstance(a, ast.Attribute) and a.attr == "sub_graph"
                 for a in ast.walk(f.node)) and (
                 sink.qualname in ctx.cg.closure([f])):
+            # ... and the recursion visits EVERY node that has a body: the
+            # loop over the nodes is not left early (a `return recursion(..)`
+            # or `break` inside it cleans the first loop body only)
+            from ..roles import _cut_short
+            for c in ast.walk(f.node):
+                if isinstance(c, ast.Call) and call_name(c) == f.node.name:
+                    loops = enclosing(f.node, c, (ast.For, ast.While))
+                    if any(_cut_short(l) for l in loops):
+                        return False
             return True
     return False
 
@@ -1269,7 +1278,7 @@ def r516(rep: Report, ctx: Ctx) -> None:
     from .effspec import check_table
     from .walkspec import TABLE
     rep.rule("R5.16", "gate tree -> node logic -> logic block: translation, "
-             "initial block state, merge validation, Event -> Node", 34)
+             "initial block state, merge validation, Event -> Node", 36)
     check_table(rep, ctx, "R5.16", TABLE, list(TABLE))
 
 
